@@ -477,4 +477,24 @@ def run(ck, facts, tier):
     rule_gensym(ck, facts, lang)
     rule_rebuild(ck, facts, lang)
     rule_subst_order(ck, facts, lang)
+    from ..rules import exprwalk, flagprop
+
+    flagprop.run(ck, facts, "C09.flag-propagation")
+
+    # the predicate that decides whether a program goes through the staging pipeline at all
+    # (found from the code: the tree predicates called, up to two calls deep, by the function that calls
+    # translate_staging::translate)
+    entries = [f for f in lang.fns if f.kind != "promoted" and any((callee(t) or "").endswith("translate_staging::translate") for _, t in f.calls())]
+    near = set()
+    frontier = list(entries)
+    for _ in range(2):
+        nxt = []
+        for g in frontier:
+            for _, t in g.calls():
+                h = facts.fn(callee(t) or "")
+                if h is not None and h.path not in near:
+                    near.add(h.path)
+                    nxt.append(h)
+        frontier = nxt
+    exprwalk.run(ck, facts, "C09.staging-predicate", only=lambda f: f.path in near or f.root in near)
     ck.not_decided("equality of the outputs of a staged program and its hand expansion; `f!(args)` = splice of `f(args)` as behaviour")
